@@ -634,7 +634,7 @@ impl World {
 		}
 		// two raw blocks may resolve to the very same block (same parent, content,
 		// timestamp): make the later one distinct by nudging its timestamp
-		if self.node_of(&b.hash()).is_some() && raw.dt < 590 {
+		if self.node_of(&b.hash()).is_some() && raw.dt < 5000 {
 			let mut r2 = raw.clone();
 			r2.dt += 1;
 			return self.build(chain, &r2, head);
